@@ -288,6 +288,7 @@ class Watchdog:
 
 def correspond(mod, ctx, exe, budget):
     cases = []
+    ctx.exe = exe        # a check may consult the executable model while it produces its cases (C14: to find where a history goes wrong)
     wd = Watchdog(ctx.quick)
     try:
         wd.start()
